@@ -19,6 +19,9 @@ def mk_isa(conf, addr_bits=16, endian='big', zones=None, gz=None, origin=None, o
            'operand_sets': {'s': {'operand_values': {'o': conf}}},
            'instructions': {'tst': {'bytecode': {'value': (1 << opcode_bits) - 3 if opcode_bits > 1 else 1, 'size': opcode_bits},
                                     'operands': {'count': 1, 'operand_sets': {'list': ['s']}}}}}
+    # the same statement as the second step of a two-step macro: its constraints are those of its own address (macro + 1)
+    isa['instructions']['pad'] = {'bytecode': {'value': 0x5A, 'size': 8}}
+    isa['macros'] = {'mtst': [{'operands': {'count': 1, 'operand_sets': {'list': ['s']}}, 'instructions': ['pad', 'tst @OP(0)']}]}
     pz = []
     if gz:
         pz.append({'name': 'GLOBAL', 'start': gz[0], 'end': gz[1]})
@@ -51,7 +54,7 @@ class C12(core.Check):
         'pos:end+1', 'pos:member', 'pos:neighbour', 'pos:negative', 'pos:umax', 'pos:umax+1', 'pos:smin', 'pos:smin-1',
         'pos:page-last', 'pos:next-page-first', 'pos:prev-page-last', 'zone:GLOBAL', 'zone:redefined-GLOBAL', 'zone:named',
         'rel:from-end', 'rel:from-start', 'slice:same-page', 'slice:other-page', 'w:non-byte-multiple', 'w:byte-multiple',
-        'expect:ACCEPT', 'expect:REJECT', 'muted-statement']}
+        'expect:ACCEPT', 'expect:REJECT', 'muted-statement', 'second-step-of-a-macro']}
 
     def one(self, conf, text, op, addr, tags, addr_bits=16, endian='big', zones=None, gz=None, origin=None, opcode_bits=8,
             fmt='json'):
@@ -65,6 +68,15 @@ class C12(core.Check):
             exp = {'kind': 'REJECT', 'why': str(e)}
         except encode.DontCare as e:
             exp = {'kind': 'DONT_CARE', 'why': str(e)}
+        macro_exp = None
+        if addr + 1 + 8 < (1 << addr_bits):
+            try:
+                b2, _ = encode.encode(isa, stmt, addr + 1, zt)
+                macro_exp = {'kind': 'ACCEPT', 'bytes': '5a' + b2.hex()}
+            except encode.Reject as e:
+                macro_exp = {'kind': 'REJECT', 'why': str(e)}
+            except encode.DontCare as e:
+                macro_exp = {'kind': 'DONT_CARE', 'why': str(e)}
         if encode.needs_yaml_keys(conf) if hasattr(encode, 'needs_yaml_keys') else _int_keys(conf):
             fmt = 'yaml'
         fn, itext = isamod.render_isa(isa, fmt)
@@ -73,7 +85,7 @@ class C12(core.Check):
         return {'runs': [{'files': {fn: itext, 'p.asm': src},
                           'argv': ['compile', '-c', fn, 'p.asm', '-o', 'out.bin', '-s', str(addr), '-e', str(min(end, (1 << addr_bits) - 1))],
                           'probes': ['steps'], 'step_limit': 300000}],
-                'meta': {'exp': exp, 'text': text, 'addr': addr, 'conf': conf}, 'tags': sorted(set(tags) | {'expect:' + exp['kind']})}
+                'meta': {'exp': exp, 'text': text, 'addr': addr, 'conf': conf, 'macro_exp': macro_exp}, 'tags': sorted(set(tags) | {'expect:' + exp['kind']})}
 
     def width_cases(self, widths):
         for w in widths:
@@ -176,6 +188,16 @@ class C12(core.Check):
         for c in self.plain_cases(tier, seed):
             yield c
             k += 1
+            if k % 4 == 1 and c['meta'].get('macro_exp') is not None:
+                t = copy.deepcopy(c)
+                r = t['runs'][0]
+                m = t['meta']
+                r['files']['p.asm'] = f".org {m['addr']}\nmtst {m['text']}\n.byte $EE\n"
+                m['exp'] = m['macro_exp']
+                m['macro'] = True
+                t['tags'] = sorted((set(t['tags']) - {'expect:ACCEPT', 'expect:REJECT', 'expect:DONT_CARE'}) |
+                                   {'second-step-of-a-macro', 'expect:' + m['exp']['kind']})
+                yield t
             if k % 3 == 0:
                 t = copy.deepcopy(c)
                 r = t['runs'][0]
